@@ -140,13 +140,11 @@ def run(tier, seed):
     # deviation, i.e. a slot only the kept function references is recycled - in every mode; then a sample of the rest)
     held = [(c, p) for c, p in raw if any(h["op"] == "hold" for h in c["hist"])]
     matters = [(c, p) for c, p in held if "no_host_roots" in c["blame"]]
-    if tier == "quick":
-        matters = rnd.sample(matters, min(400, len(matters)))
+    matters = rnd.sample(matters, min(400 if tier == "quick" else 4000, len(matters)))
     for c, p in matters:
         cases += [render(c, p, m) for m in HOLD_MODES]
     rest = [(c, p) for c, p in held if "no_host_roots" not in c["blame"]]
-    if tier == "quick":
-        rest = rnd.sample(rest, min(300, len(rest)))
+    rest = rnd.sample(rest, min(300 if tier == "quick" else 3000, len(rest)))
     for i, (c, p) in enumerate(rest):
         cases.append(render(c, p, list(HOLD_MODES)[i % len(HOLD_MODES)]))
     r.notes.append(f"script-held variants: {len(matters)} histories in which the kept function decides a recycle x {len(HOLD_MODES)} modes, {len(rest)} others")
